@@ -222,6 +222,9 @@ def run(ctx):
         return None
     probs = check_reach([p for p in lpaths if any(e.kind == 'loop-iter' for e in p.events)], is_store, m_ver, expected,
                         universe=['exists', 'older', 'newer'], feasible=lambda F: not (F['older'] and F['newer']), first_only=True)
+    from . import common as _cm7
+    if not any(is_store(e) for p_ in lpaths for e in p_.events):
+        raise AnalysisError('C07.3: load() no longer registers a description by a store `interfaces[name] = ..` on its own paths: who wins the version contest cannot be read off')
     ctx.check(not probs, 'C07.3', 'load:highest-version-wins', f_load.loc(),
               'a description replaces the registered one iff none is registered or the registered one is older',
               'registration reached=%s in scenario %s' % ((probs[0][2], probs[0][1]) if probs else ('', '')))
@@ -341,6 +344,8 @@ def run(ctx):
     is_app = lambda e: e.kind == 'call' and e.ftext and e.ftext.endswith('.append') and e.loops and e.loops[-1][1] == 0
     loop_paths = [p for p in epaths if any(e.kind == 'loop-iter' for e in p.events)]
     probs = check_reach(loop_paths, is_app, m_enum, lambda F: F['intersects'] if F['bitfield'] else F['equals'], universe=['bitfield', 'intersects', 'equals'], first_only=True)
+    if not loop_paths:
+        raise AnalysisError('C07.6: look_up_enum no longer scans the entries in a loop of its own: which entries it reports cannot be read off')
     ctx.check(not probs and loop_paths, 'C07.6', 'enum:entry-iff', f_lue.loc(),
               'an entry is reported iff it equals the value (plain enum) or shares a bit with it (bitfield)',
               'entry reported=%s in scenario %s' % ((probs[0][2], probs[0][1]) if probs else ('', '')))
